@@ -103,15 +103,22 @@ def sources_hash():
     return h.hexdigest()[:24]
 
 
-def audit_axioms():
-    """{theorem name: [axioms]} for every theorem in namespace CF.Cxx (all properties), cached by
-    the hash of the Lean sources"""
+def audit_axioms(pid):
+    """{theorem name: [axioms]} for every theorem of namespace CF.<pid>, obtained by running the
+    audit command on a file that imports only that property's module; cached by the hash of the
+    Lean sources"""
     key = sources_hash()
-    cache = os.path.join(LEAN, ".lake", f"audit-{key}.json")
+    cache = os.path.join(LEAN, ".lake", f"audit-{pid}-{key}.json")
     if os.path.exists(cache):
         return json.load(open(cache))
-    with BuildLock():
-        rc, out = sh(["lake", "env", "lean", "ChipFiring/Audit.lean"], cwd=LEAN, timeout=1800)
+    ok, out = lake_build(["ChipFiring.AuditCmd"])
+    if not ok:
+        raise Infra("audit command does not build:\n" + out[-3000:])
+    os.makedirs(os.path.join(LEAN, ".lake", "audit"), exist_ok=True)
+    src = os.path.join(LEAN, ".lake", "audit", f"Audit{pid}.lean")
+    with open(src, "w") as f:
+        f.write(f"import ChipFiring.AuditCmd\nimport ChipFiring.Properties.{pid}\n\n#audit_properties\n")
+    rc, out = sh(["lake", "env", "lean", src], cwd=LEAN, timeout=1800)
     if rc != 0:
         raise Infra("audit failed:\n" + out[-3000:])
     res = {}
